@@ -6,6 +6,7 @@ import reccommon as R
 from engine import Op, set_mode
 
 PROP = "C14"
+QUICK_BOOST = 2
 LEAN_MODULES = ["IsoDT.Props.C14", "IsoDT.Props.C14c", "IsoDT.Props.C14mm"]
 RULE = ("recurrences as in C12 x exact shift durations (either operand order, and subtraction); pairs differing in "
         "exactly one component, pairs spelling the same anchors and interval differently (other zone, other "
